@@ -74,4 +74,12 @@ StructOK(sh, o) ==
 (* type that is not the declared one.                                          *)
 Dev_CheckAcceptsUnsound(e) ==
     /\ e.ev = "struct" /\ e.obs.check = "ok" /\ ~Sane(e.shape)
+\* (fixed) Wrapper.Set wrote the first field with the json name, tagged or not, while Get
+\* read the first TAGGED one: a field without api tag that shares the json name of an
+\* attribute or relationship declared after it received the value (panic: wrong Go type)
+Dev_SetWritesUntaggedNamesake(e) ==
+    /\ e.ev = "struct" /\ e.obs.check = "ok" /\ Sane(e.shape) /\ e.obs.panics # <<>>
+    /\ \E i, j \in 1..Len(e.shape.fields) :
+          i < j /\ ~Tagged(e.shape.fields[i]) /\ Tagged(e.shape.fields[j])
+          /\ e.shape.fields[i].json = e.shape.fields[j].json
 =============================================================================
